@@ -22,6 +22,8 @@ func main() {
 	switch *suite {
 	case "quorum":
 		runQuorum(res, *tier, *seed, *replay)
+	case "confchange":
+		runConfChange(res, *tier, *seed, *replay)
 	default:
 		fmt.Fprintf(os.Stderr, "unknown suite %q\n", *suite)
 		os.Exit(2)
